@@ -1529,6 +1529,9 @@ class TT():
                     cores_new.append(tn.reshape(
                         cores[-1], [cores[-1].shape[0], mode_size, -1]))
                 else:
+                    if core.shape[1] != 1 and core.shape[1] != mode_size:
+                        raise ShapeMismatch('Reshaping error: check if the dimensions are powers of the desired mode size:\r\ncore size '+str(
+                            list(core.shape))+' cannot be reshaped.')
                     cores_new.append(core)
             result = TT(cores_new).round(eps, rmax)
 
